@@ -296,18 +296,18 @@ def printNode (tbl : Nat → Bool) (n : Node) (ps : PrintState) : PR :=
           let ps := if needP then ps.print [41] else ps
           .ok { ps with exprPrec := old }
   | .forE _ cond body =>
-    match printO tbl cond (ps.print (str "for ")) with
+    match printO tbl cond (ps.print [102, 111, 114, 32] /- "for " -/) with
     | .error e => .error e
     | .ok ps => printStmts tbl body (if !ps.compact then ps.print [32] else ps)
   | .ifE _ cond cons alt =>
-    match printO tbl cond (ps.print (str "if ")) with
+    match printO tbl cond (ps.print [105, 102, 32] /- "if " -/) with
     | .error e => .error e
     | .ok ps =>
       match printStmts tbl cons (if !ps.compact then ps.print [32] else ps) with
       | .error e => .error e
       | .ok ps =>
         -- printElse
-        let pse := if ps.compact then ps.print (str "else") else ps.print (str " else ")
+        let pse := if ps.compact then ps.print [101, 108, 115, 101] /- "else" -/ else ps.print [32, 101, 108, 115, 101, 32] /- " else " -/
         match alt with
         | none => .ok ps
         | some l =>
@@ -329,7 +329,7 @@ def printNode (tbl : Nat → Bool) (n : Node) (ps : PrintState) : PR :=
       | .error e => .error e
       | .ok ps =>
         let ps := if needP then ps.print [41] else ps
-        let ps := if ps.compact then ps.print (str "=>") else ps.print (str " => ")
+        let ps := if ps.compact then ps.print [61, 62] /- "=>" -/ else ps.print [32, 61, 62, 32] /- " => " -/
         match printStmts tbl body ps with
         | .error e => .error e
         | .ok ps => .ok (if outerParen then ps.print [41] else ps)
@@ -340,7 +340,7 @@ def printNode (tbl : Nat → Bool) (n : Node) (ps : PrintState) : PR :=
         | some n => (ps.print [32]).print n.lit
       match printList tbl params (ps.print [40]) 0 with
       | .error e => .error e
-      | .ok ps => printStmts tbl body (if ps.compact then ps.print [41] else ps.print (str ") "))
+      | .ok ps => printStmts tbl body (if ps.compact then ps.print [41] else ps.print [41, 32] /- ") " -/)
   | .call _ fn args =>
     let old := ps.exprPrec
     match printO tbl fn { ps with exprPrec := prioCALL } with
@@ -383,7 +383,7 @@ def printNode (tbl : Nat → Bool) (n : Node) (ps : PrintState) : PR :=
   | .macroLit t params body =>
     match printList tbl params ((ps.print t.lit).print [40]) 0 with
     | .error e => .error e
-    | .ok ps => printStmts tbl body (if ps.compact then ps.print [41] else ps.print (str ") "))
+    | .ok ps => printStmts tbl body (if ps.compact then ps.print [41] else ps.print [41, 32] /- ") " -/)
 
 def printO (tbl : Nat → Bool) (n : Option Node) (ps : PrintState) : PR :=
   match n with
